@@ -47,7 +47,7 @@ func (p *Program) oraclesFor(prop string, fnKey string) []*ssa.Function {
 		if !has {
 			continue
 		}
-		match := len(c.Covers) == 0
+		match := len(c.Covers) == 0 || fnKey == "*"
 		for _, cv := range c.Covers {
 			if strings.Contains(fnKey, cv) {
 				match = true
